@@ -303,4 +303,50 @@ example : ∀ g ∈ [Gas.constant (1 / 1000 : ℝ), Gas.twoPoint (1 / 10000) (1 
   simp at hg
   rcases hg with rfl | rfl <;> simp only [Gas.Admissible] <;> norm_num
 
+/-! ### availability of opacity data along a session (`OpacityCache`: path changes, files, tables in memory) -/
+
+/-- **the molecules that have opacity data at a moment of a session**: the cross-section files of the directory the
+    opacity path points to at that moment, and the tables held in memory — nothing else -/
+theorem session_available (s : CacheState) (m : String) :
+    m ∈ s.molecules ↔ (∃ i, s.path = some i ∧ m ∈ s.dirs.getD i []) ∨ m ∈ s.loaded := by
+  unfold CacheState.molecules CacheState.discovered
+  cases h : s.path with
+  | none => simp
+  | some i => simp
+
+/-- asking for the available molecules (what constructing a chemistry does) leaves no trace: every later state, hence
+    every later answer, is what it would be had the question not been asked -/
+theorem session_ask_pure (s : CacheState) (before after : List CacheOp) :
+    s.run (before ++ CacheOp.ask :: after) = s.run (before ++ after) := by
+  simp [CacheState.run, List.foldl_append, CacheState.step]
+
+/-- after the opacity path is switched, the files of the NEW directory count (with what is in memory) -/
+theorem session_set_path (s : CacheState) (i : Nat) (m : String) :
+    m ∈ (s.step (.setPath i)).molecules ↔ m ∈ s.dirs.getD i [] ∨ m ∈ s.loaded := by
+  simp [CacheState.step, CacheState.molecules, CacheState.discovered]
+
+/-- **a chemistry constructed at session state `s` splits its gases exactly by the opacity data available at `s`**
+    (minus the deactivated molecules): absorbing = available, non-absorbing = the others -/
+theorem session_split (s : CacheState) (deactive : Option (List String)) (gases : List String) (g : String) :
+    (g ∈ activeGases gases (availableActive s.molecules deactive) ↔
+      g ∈ gases ∧ g ∈ s.molecules ∧ ∀ d, deactive = some d → g ∉ d) ∧
+    (g ∈ inactiveGases gases (availableActive s.molecules deactive) ↔
+      g ∈ gases ∧ ¬ (g ∈ s.molecules ∧ ∀ d, deactive = some d → g ∉ d)) := by
+  have h := available_spec s.molecules deactive g
+  constructor
+  · simp only [activeGases, List.mem_filter, List.contains_iff_mem]
+    rw [h]
+  · have hc : ((availableActive s.molecules deactive).contains g = false) ↔
+        ¬ g ∈ availableActive s.molecules deactive := by
+      rw [← List.contains_iff_mem]; simp
+    simp only [inactiveGases, List.mem_filter, Bool.not_eq_true', hc]
+    rw [h]
+
+/-- non-vacuity: two directories (H2O / CH4), a chemistry is constructed while the path points to the first, then the path
+    is switched: CH4 is the absorber -/
+example :
+    let s0 : CacheState := { path := none, dirs := [[], []], loaded := [] }
+    let hist := [CacheOp.addFile 0 "H2O", .addFile 1 "CH4", .setPath 0, .ask, .setPath 1]
+    (s0.run hist).molecules = ["CH4"] ∧
+    activeGases ["H2", "He", "H2O", "CH4"] (availableActive (s0.run hist).molecules none) = ["CH4"] := by decide
 end Taurex.C10
